@@ -85,6 +85,39 @@ Proof.
   intros s Hs w. unfold scripted. simpl. rewrite actions_base. rewrite Hs; [apply orb_false_r|].
   apply nth_last_in.
 Qed.
+(** a deadline the message arrived with is nobody's to change *)
+Definition bdl_preserving (h : handler) : Prop := forall w, m_base_dl (w_msg (fst (h w))) = m_base_dl (w_msg w).
+Lemma actions_bdl : forall l m, m_base_dl (fold_left do_action l m) = m_base_dl m.
+Proof. induction l as [|a l IH]; intros m; simpl; auto. rewrite IH. destruct a; reflexivity. Qed.
+Lemma scripted_bdl : forall s, bdl_preserving (scripted s).
+Proof. intros s w. unfold scripted. simpl. apply actions_bdl. Qed.
+Lemma retry_loop_bdl : forall h, bdl_preserving h -> forall n num depth w outs e,
+  m_base_dl (w_msg (fst (retry_loop h n num depth w outs e))) = m_base_dl (w_msg w).
+Proof.
+  intros h Hh. induction n as [|n IH]; intros; simpl; auto.
+  destruct (done_upto depth (w_msg w)); simpl; auto.
+  pose proof (Hh w) as P. destruct (h w) as [w1 r]. simpl in P. destruct r; simpl; auto.
+  rewrite IH. simpl. exact P.
+Qed.
+Lemma mw_bdl : forall v m h, bdl_preserving h -> bdl_preserving (mw_sem v m h).
+Proof.
+  intros v m h Hh w. destruct m; simpl.
+  - pose proof (Hh (set_msg w (set_ctx (w_msg w) (Layer d false :: m_ctx (w_msg w))))) as P.
+    destruct (h _) as [w2 r]. simpl in *. exact P.
+  - pose proof (Hh w) as P. destruct (h w) as [w1 r]. destruct r; simpl in *; auto.
+  - pose proof (Hh w) as P. destruct (h w) as [w1 r]. destruct r; simpl in *; auto.
+  - pose proof (Hh w) as P. destruct (h w) as [w1 r]. destruct r; simpl in *; auto.
+    destruct (in_texts _ _); auto.
+  - rewrite Hh. reflexivity.
+  - apply Hh.
+  - apply Hh.
+  - pose proof (Hh w) as P. destruct (h w) as [w1 r]. destruct r; simpl in *; auto.
+  - pose proof (Hh w) as P. destruct (h w) as [w1 r]. destruct r; simpl in *; auto.
+    rewrite retry_loop_bdl by auto. exact P.
+Qed.
+Lemma stack_bdl : forall v mws h, bdl_preserving h -> bdl_preserving (stack v mws h).
+Proof. induction mws; simpl; auto using mw_bdl. Qed.
+
 Theorem effect_ends_with_call : forall mws s w,
   let w' := fst (stack repaired mws (scripted s) w) in
   m_ctx (w_msg w') = m_ctx (w_msg w)
@@ -94,7 +127,8 @@ Theorem effect_ends_with_call : forall mws s w,
 Proof.
   intros mws s w w'. pose proof (stack_ctx mws _ (scripted_ctx s) w) as C. fold w' in C. split; auto.
   intros Hs. pose proof (stack_base repaired mws _ (scripted_base s Hs) w) as B. fold w' in B.
-  unfold ctx_done, view. simpl. rewrite C, B. auto.
+  pose proof (stack_bdl repaired mws _ (scripted_bdl s) w) as D. fold w' in D.
+  unfold ctx_done, view. simpl. rewrite C, B, D. auto.
 Qed.
 (** the pinned Timeout (D3) leaves the cancelled timeout context in the message *)
 Lemma effect_ends_with_call_refuted : exists mws s w,
@@ -102,7 +136,7 @@ Lemma effect_ends_with_call_refuted : exists mws s w,
   /\ ctx_done (w_msg (fst (stack pinned mws (scripted s) w))) = true
   /\ m_ctx (w_msg (fst (stack pinned mws (scripted s) w))) <> m_ctx (w_msg w).
 Proof.
-  exists [MTimeout 5], [Call [] (Ret [])], (init_world (MSt [] [] false Unsettled)).
+  exists [MTimeout 5], [Call [] (Ret [])], (init_world (MSt [] [] false Unsettled None)).
   split; [|vm_compute; repeat split; congruence].
   intros c [<-|[<-|[]]]; reflexivity.
 Qed.
@@ -248,6 +282,6 @@ Lemma composes_with_retry_refuted : exists maxr inner s w, forallb is_simple inn
   /\ w_calls (fst (mw_sem pinned (MRetry maxr) (stack pinned inner (scripted s)) w)) = 1%nat
   /\ w_calls (fst (mw_sem pinned (MRetry maxr) (scripted (map_res (effo inner) s)) w)) = 4%nat.
 Proof.
-  exists 3%Z, [MTimeout 5], [Call [] (Fail [] (EBase 7))], (init_world (MSt [] [] false Unsettled)).
+  exists 3%Z, [MTimeout 5], [Call [] (Fail [] (EBase 7))], (init_world (MSt [] [] false Unsettled None)).
   vm_compute. auto.
 Qed.
